@@ -2,6 +2,9 @@
 
 use std::sync::atomic::{AtomicPtr, Ordering};
 
+#[cfg(blue_verif)]
+pub mod verif;
+
 /////////////////////////////////////////////// Node ///////////////////////////////////////////////
 
 struct Node<T> {
@@ -16,10 +19,22 @@ impl<T> Node<T> {
     }
 
     fn set_next(&self, x: *mut Node<T>) {
+        #[cfg(blue_verif)]
+        let _verif = verif::Guard::new(
+            verif::SET,
+            self as *const Self as usize,
+            &self.next as *const _ as usize,
+        );
         self.next.store(x, Ordering::Release);
     }
 
     fn get_next(&self) -> *mut Node<T> {
+        #[cfg(blue_verif)]
+        let _verif = verif::Guard::new(
+            verif::GET,
+            self as *const Self as usize,
+            &self.next as *const _ as usize,
+        );
         self.next.load(Ordering::Acquire)
     }
 }
@@ -28,6 +43,8 @@ mod node_ptr {
     use super::Node;
 
     fn deref<'a, T>(ptr: *mut Node<T>) -> &'a Node<T> {
+        #[cfg(blue_verif)]
+        super::verif::point(super::verif::DEREF, ptr as usize);
         unsafe { &*ptr }
     }
 
@@ -54,9 +71,22 @@ pub struct List<T> {
 impl<T> List<T> {
     pub fn prepend(&self, data: T) {
         let node: *mut Node<T> = Box::leak(Box::new(Node::new(data)));
+        #[cfg(blue_verif)]
+        verif::point(verif::ALLOC, node as usize);
         loop {
+            #[cfg(blue_verif)]
+            let verif_guard =
+                verif::Guard::new(verif::HEAD_GET, 0, &self.head as *const _ as usize);
             let head = self.head.load(Ordering::Acquire);
+            #[cfg(blue_verif)]
+            drop(verif_guard);
             node_ptr::set_next(node, head);
+            #[cfg(blue_verif)]
+            let _verif = verif::Guard::new(
+                verif::HEAD_CAS,
+                node as usize,
+                &self.head as *const _ as usize,
+            );
             if self
                 .head
                 .compare_exchange(head, node, Ordering::SeqCst, Ordering::SeqCst)
@@ -69,7 +99,11 @@ impl<T> List<T> {
 
     pub fn iter(&self) -> impl Iterator<Item = &T> + '_ {
         let _list = self;
+        #[cfg(blue_verif)]
+        let verif_guard = verif::Guard::new(verif::HEAD_GET, 0, &self.head as *const _ as usize);
         let node = self.head.load(Ordering::Acquire);
+        #[cfg(blue_verif)]
+        drop(verif_guard);
         ListIterator { _list, node }
     }
 }
@@ -87,6 +121,8 @@ impl<T> Drop for List<T> {
         while !ptr.is_null() {
             let to_drop = ptr;
             ptr = node_ptr::get_next(ptr);
+            #[cfg(blue_verif)]
+            verif::point(verif::FREE, to_drop as usize);
             drop(unsafe { Box::from_raw(to_drop) });
         }
     }
